@@ -98,6 +98,27 @@ XMAP = {}
 LAST = {}
 
 
+def shrink_impl_only(pid, lines, pred_key, budget=8):
+    mon, _ = CFG[pid]
+    cur = list(lines)
+    chunk = max(1, len(cur) // 2)
+    rounds = 0
+    while chunk >= 1 and rounds < budget:
+        rounds += 1
+        cands = [cur[:i] + cur[i + chunk:] for i in range(0, len(cur), chunk) if cur[:i] + cur[i + chunk:]]
+        if not cands:
+            break
+        res, _ = syscorr.run_both([("s%d" % i, c) for i, c in enumerate(cands)], "shrinkv_" + pid)
+        hit = [ls for (cid, ls, iobs, mobs) in res if any(failure_key(f) == pred_key for f in mon(sysmon.Trace(cid, ls, iobs, XMAP)))]
+        if hit:
+            cur = min(hit, key=len)
+        elif chunk == 1:
+            break
+        else:
+            chunk = max(1, chunk // 2)
+    return cur
+
+
 def shrink(pid, lines, pred_key, kind, budget=10):
     """greedy delta debugging on the op list: drop chunks while the same failure persists"""
     mon, fields = CFG[pid]
@@ -193,6 +214,8 @@ def probe_search(pid, mism, limit=12):
 
 def run(res, tier, seed, pid):
     vlib.standard_proof_step(res, pid)
+    import c16
+    c16.atomicity(res, pid)
     if not vlib.build_executors(res, pid):
         return
     rng = random.Random(seed)
@@ -217,12 +240,28 @@ def run(res, tier, seed, pid):
         "evaluations": nops, "distinct_nontrivial": len({tuple(l) for _, l in cases if len(l) >= 6}),
         "rule": "system histories over a universe of <=4 ClusterCIDRs x <=5 nodes (pools of 1..16 blocks, single/dual stack, identical/nested/disjoint ranges, "
                 "6 selector shapes): random histories (user ops, deliveries, resyncs, relists, tombstones, fetch/run splits, scripted write outcomes ok/fail/timeout-applied/"
-                "timeout-not-applied, crashes + restarts) and 14 scenario templates with 12% noise ops, plus the committed corpus; a history is non-trivial when it is "
+                "timeout-not-applied, crashes + restarts) and 15 scenario templates with 12% noise ops, plus the committed corpus; a history is non-trivial when it is "
                 "distinct and has at least 6 ops",
         "samples": [{"case": cases[i][0], "ops": cases[i][1][:14]} for i in (0, len(cases) // 2, len(cases) - 1)],
         "distribution": stats, "timing": st, "traces_validated_against_impl": len(cases),
         "node_work_items": patches, "monitor_failures_known": len(fails) - len(unknown),
     })
+    # C12 only: inputs outside the model's value domain (IPv4-mapped IPv6 text, K1) run on the implementation alone;
+    # the crash / stall monitor is the only judge there
+    if pid == "C12":
+        v4m = sysgen.gen_v4mapped(rng, 200 if tier == "quick" else 2000)
+        vres, _ = syscorr.run_both(v4m, pid + "_v4m")
+        res.coverage["v4mapped_histories"] = len(v4m)
+        vf = []
+        for cid, ls, iobs, mobs in vres:
+            for f in sysmon.mon_c12(sysmon.Trace(cid, ls, iobs, XMAP)):
+                vf.append((cid, ls, f))
+        res.obligation("no panic of the implementation on %d histories with IPv4-mapped IPv6 CIDR text (outside the model's domain)" % len(v4m), not vf)
+        for cid, ls, f in vf[:1]:
+            small = shrink_impl_only(pid, ls[:f["step"] + 1], failure_key(f))
+            res.violation({"property": pid, "kind": "impl-violation", "theorem_or_correspondence": "crash monitor on the implementation's trace (input outside the model's value domain)",
+                           "monitor_clause": f["clause"], "class": f["cls"], "detail": f["detail"], "case": ["case " + cid] + small,
+                           "replay_cmd": "/verif/check %s --replay <this file>" % pid})
     # known findings seen on this run
     for cid, lines, f in fails:
         k = classify(pid, f)
